@@ -43,7 +43,13 @@ def _same(a, b, what, dtype_too=True):
 
 
 def _sig(op, dt):
-    x = make_signal({"n": op["n"], "kind": op.get("kind", "noise"), "seed": op.get("seed", 0), "scale": op.get("scale", 1.0)}, DT[dt])
+    kind = op.get("kind", "noise")
+    tail = kind in ("nan_tail", "inf_tail")
+    x = make_signal({"n": op["n"], "kind": "noise" if tail else kind, "seed": op.get("seed", 0), "scale": op.get("scale", 1.0)}, DT[dt])
+    if tail and len(x):
+        # a recording that ends in non-finite samples (a clipped / corrupted tail): whatever it leaves in the
+        # instance's buffers must not reach the next utterance
+        x[-max(1, len(x) // 3):] = np.nan if kind == "nan_tail" else np.inf
     x.flags.writeable = False
     return x
 
@@ -90,7 +96,7 @@ def check_history(case):
             a = call(tag + " compute_chunk", real.compute_chunk, x)
             b = twin.compute_chunk(x)
             _same(a, b, tag + " compute_chunk(len %d) in utterance %d" % (len(x), utterances))
-            require(np.array_equal(x, keep), "{}: input chunk was modified", tag)
+            require(x.tobytes() == keep.tobytes(), "{}: input chunk was modified", tag)
             started = True
             cur_samples += len(x)
             last_chunk_subframe = len(x) < L
@@ -136,7 +142,7 @@ def check_history(case):
                     interesting = True
                 classes.add(length_class(len(x)))
                 labels.add(kind + ":" + length_class(len(x)))
-            require(np.array_equal(x, keep), "{}: input signal was modified", tag)
+            require(x.tobytes() == keep.tobytes(), "{}: input signal was modified", tag)
         else:
             raise Violation("unknown op %r" % kind)
         require(real.started is started or real.started == started, "{}: started is {!r}, expected {!r}", tag, real.started, started)
@@ -151,7 +157,7 @@ def check_history(case):
 def _sig_fields():
     return dict(
         seed=st.integers(0, 2 ** 16),
-        kind=st.sampled_from(["noise", "noise", "const", "impulse", "zeros"]),
+        kind=st.sampled_from(["noise", "noise", "noise", "const", "impulse", "zeros", "nan_tail", "inf_tail", "gated"]),
         scale=st.sampled_from([1.0, 50.0]),
     )
 
@@ -184,10 +190,11 @@ def _utterance(draw, L, S):
     for i in range(len(pts) - 1):
         n = pts[i + 1] - pts[i]
         ops.append(dict(op="chunk", n=n, dtype=dtype, seed=sig["seed"] + i, kind=sig["kind"], scale=sig["scale"]))
-        if draw(st.sampled_from([False] * 5 + [True])):
-            # a call that must be refused mid-utterance
+        if draw(st.sampled_from([False] * 4 + [True])):
+            # a call that must be refused mid-utterance; its signal may have another float dtype than the utterance in progress
             r = draw(st.sampled_from(["full", "fbf"]))
-            ops.append(dict(op=r, n=draw(st.sampled_from([0, 1, L // 2, L, 3 * L])), dtype=dtype, chunk_size=draw(st.integers(1, L + 1)), **sig))
+            ops.append(dict(op=r, n=draw(st.sampled_from([0, 1, L // 2, L, 3 * L])), dtype=draw(st.sampled_from([dtype, dtype, "f64", "f32"])),
+                            chunk_size=draw(st.integers(1, L + 1)), **sig))
     ops.append({"op": "finalize"})
     if draw(st.sampled_from([False, False, False, True])):
         ops.append({"op": "finalize"})
